@@ -32,6 +32,7 @@ PROPS = {
     "C14": {
         "lean_modules": ["P2.Props.C14Gen", "P2.Props.C14"],
         "audit_module": "P2.Audit.C14",
+        "extra_audit_modules": ["P2.Audit.GL2Field"],
         "harness_prop": "c14",
         "profile": "verif",
         "canon": canon_trap,
@@ -41,7 +42,7 @@ PROPS = {
             "x86 inline asm add_no_canonicalize_trashing_input modelled by its documented semantics",
             "packed AVX2/AVX-512 lanes: not modelled (partial)",
         ],
-        "level_text": "Machine-checked Lean 4 theorems: the bit-exact model of every scalar Goldilocks operator and of the delayed-reduction extension multiplications returns the exact residue for ALL operands with no unchecked assumption violated; constants re-extracted from /repo each run; model tied to the Rust code bit-exactly by correspondence",
+        "level_text": "(GL2Field: 7 is a quadratic non-residue mod p (Euler criterion, kernel-evaluated modular power), hence the model's quadratic extension GL2 with ITS OWN add/mul/sub/neg/inv is a field; instFOpsGL2 = FOps.ofField GL2 and instFOpsGL = FOps.ofField GL, so every field-generic theorem of this development instantiates at the model's types; pow2Gen has order 2^32 and primitiveRoot k is a primitive 2^k-th root) Machine-checked Lean 4 theorems: the bit-exact model of every scalar Goldilocks operator and of the delayed-reduction extension multiplications returns the exact residue for ALL operands with no unchecked assumption violated; constants re-extracted from /repo each run; model tied to the Rust code bit-exactly by correspondence",
         "level_note": "Trusted: Lean kernel; axioms propext/Classical.choice/Quot.sound; extract.py; hand transcription of the Rust control flow tied by differential correspondence (bit-exact raw representation + canonical value vs Nat arithmetic); x86 asm by documented semantics; packed SIMD lanes not covered (partial).",
         "assumptions": ["harness built with debug-assertions and overflow-checks so violated assume()/overflow panics"],
         "rule": "operator requests on boundary pairs, branch witnesses (double overflow/underflow, reduce128 borrow), carry-shaped and random canonical/non-canonical words; distinct = distinct request lines; non-trivial = every request exercises one operator on the real code and on the L0 model (bit-exact) and on Nat arithmetic mod p",
@@ -326,15 +327,16 @@ PROPS["C01"] = {
 }
 
 PROPS["C02"] = {
-    "lean_modules": ["P2.Props.C03", "P2.Props.C07b", "P2.Props.C02b"],
+    "lean_modules": ["P2.Props.C03", "P2.Props.C07b", "P2.Props.C02b", "P2.Props.C02c"],
     "audit_module": "P2.Audit.C02",
-    "harness_prop": "c02",
+    "extra_audit_modules": ["P2.Audit.GL2Field"],
+        "harness_prop": "c02",
     "profile": "release",
     "judge": judge_plonk_verdict,
     "trusted_base": PLONK_TB + [
         "adversarial prover strategies behind hooks (Z override, quotient perturbation, grinding override) are not built yet: only the honest algorithm on an invalid witness through the public prove_with_partition_witness (partial)",
     ],
-    "level_text": "Lean 4: verifier decision logic (acceptance forces the quotient identity for challenges recomputed from the proof) and the gate pinning theorems (a generator-written output changed alone makes its gate's constraint non-zero, all parameters); tied by exact verdict agreement of the Lean verifier with CircuitData::verify on proofs the real prover emits for certainly-violating witnesses (gate output changed alone, one routed member of a copy class made to differ, class-wide change of a produced-and-consumed variable), incl. routed-wire counts that are not a multiple of the quotient degree factor; REJECT asserted at standard strength",
+    "level_text": "(instantiated at the model's own GL2 via GL2Field: if the alpha-combination computed by the verifier model vanishes for more base-field alphas than there are terms, every term is zero) (C02c, glue between the algebra and the verifier model itself: evalVanishingPoly = alphas.map (Horner of vanishingTerms) where vanishingTerms = L0*(Z_i-1) terms ++ partial-product checks ++ lookup checks ++ gate constraints in the code's order; every family is a member — none can be silently dropped; evaluateGateConstraints[j] = sum of filter_i * constraint_j over the gates, a single term when the other filters vanish; Plonk.verify = accept implies, for every challenge i, Horner(vanishingTerms, alpha_i) = (zeta^n - 1) * Horner(quotient chunk i, zeta^n); over a field, vanishing of the combination for more alphas than terms forces every family to zero) Lean 4: verifier decision logic (acceptance forces the quotient identity for challenges recomputed from the proof) and the gate pinning theorems (a generator-written output changed alone makes its gate's constraint non-zero, all parameters); tied by exact verdict agreement of the Lean verifier with CircuitData::verify on proofs the real prover emits for certainly-violating witnesses (gate output changed alone, one routed member of a copy class made to differ, class-wide change of a produced-and-consumed variable), incl. routed-wire counts that are not a multiple of the quotient degree factor; REJECT asserted at standard strength",
     "level_note": "The algebraic soundness core (violation => identity fails off an explicit small challenge set) is being added as theorems over P2/Model/PlonkAlg.lean; FRI proximity and the random oracle are assumed. Virtual targets are names, not trace cells: only routed wire cells are corrupted.",
     "assumptions": ["FRI proximity soundness", "random oracle"],
     "rule": "generated programs x configs (every second circuit with 28/37/45/50/61 routed wires) x 6 certain-to-violate corruptions; every emitted proof verified by both verifiers; distinct = distinct request lines",
@@ -495,11 +497,12 @@ def judge_stark(d):
 PROPS["C09"] = {
     "lean_modules": ["P2.Props.C09", "P2.Props.C09b", "P2.Props.C09c"],
     "audit_module": "P2.Audit.C09",
-    "harness_prop": "c09",
+    "extra_audit_modules": ["P2.Audit.GL2Field"],
+        "harness_prop": "c09",
     "profile": "release",
     "judge": judge_stark,
     "trusted_base": STARK_TB,
-    "level_text": "Lean 4 model of the complete STARK verifier (degree recovery, FRI parameters for all three reduction strategies, full challenge derivation incl. both transcript padding modes, L_0/L_last, constraint consumer, quotient identity, FRI instance, FRI verifier) and of what 'the trace satisfies the AIR' means row by row; theorems: Stark.verify accepts IFF public-input count, degree recovery, every shape fact (validateShape_accept_iff: all opening-list lengths, quotient commitment AND quotient openings present iff the AIR has quotient polynomials, ctl_zs_first present iff CTLs, auxiliary data iff lookups/CTLs), the quotient identity for every chunk and FRI acceptance hold (verifyWithChallenges_accept_iff / verify_accept_iff); the constraint consumer is one Horner accumulator per challenge = sum c_i*alpha^(n-1-i) and over a field it vanishes for more than n-1 alphas only if every constraint value is zero (C09b); L_0 / L_last / z_last are the Lagrange selectors of the first and last row (C09b); satisfied <-> every active constraint is zero on every row (transitions skip the wrap-around row); transcript order and injectivity for the STARK challenger incl. the inside of fri_challenges (C09c: trace cap before lookup challenges, auxiliary cap before alphas, quotient cap before zeta, openings before FRI alpha, each commit cap before its beta, final polynomial and pow witness before the pow response and the query indices); no-panic: after shape validation no panic point is reachable for AIRs without lookups (…_partial), the panics BEFORE shape validation are characterised exactly (recoverDegreeBits_error_iff = known finding F-C18-3a); tied to starky by exact agreement of verdicts and of every challenge on honest proofs, on proofs of corrupted traces, on per-element tampering / list surgery / option toggling of accepted proofs and on forged proofs (dishonest prover without quotient commitment), plus the property's oracle on the implementation: satisfying trace => proof accepted, violating trace (single-cell corruption in first / last / interior / wrap-around rows, wrong public inputs) => no accepted proof, at standard strength every tampered proof rejected",
+    "level_text": "(instantiated at the model's own GL2 via GL2Field: consumer_all_zero_of_many_base_alphas, air_constraints_zero_of_many_alphas, evalL0LLast_ok_spec for Stark.evalL0LLast itself) Lean 4 model of the complete STARK verifier (degree recovery, FRI parameters for all three reduction strategies, full challenge derivation incl. both transcript padding modes, L_0/L_last, constraint consumer, quotient identity, FRI instance, FRI verifier) and of what 'the trace satisfies the AIR' means row by row; theorems: Stark.verify accepts IFF public-input count, degree recovery, every shape fact (validateShape_accept_iff: all opening-list lengths, quotient commitment AND quotient openings present iff the AIR has quotient polynomials, ctl_zs_first present iff CTLs, auxiliary data iff lookups/CTLs), the quotient identity for every chunk and FRI acceptance hold (verifyWithChallenges_accept_iff / verify_accept_iff); the constraint consumer is one Horner accumulator per challenge = sum c_i*alpha^(n-1-i) and over a field it vanishes for more than n-1 alphas only if every constraint value is zero (C09b); L_0 / L_last / z_last are the Lagrange selectors of the first and last row (C09b); satisfied <-> every active constraint is zero on every row (transitions skip the wrap-around row); transcript order and injectivity for the STARK challenger incl. the inside of fri_challenges (C09c: trace cap before lookup challenges, auxiliary cap before alphas, quotient cap before zeta, openings before FRI alpha, each commit cap before its beta, final polynomial and pow witness before the pow response and the query indices); no-panic: after shape validation no panic point is reachable for AIRs without lookups (…_partial), the panics BEFORE shape validation are characterised exactly (recoverDegreeBits_error_iff = known finding F-C18-3a); tied to starky by exact agreement of verdicts and of every challenge on honest proofs, on proofs of corrupted traces, on per-element tampering / list surgery / option toggling of accepted proofs and on forged proofs (dishonest prover without quotient commitment), plus the property's oracle on the implementation: satisfying trace => proof accepted, violating trace (single-cell corruption in first / last / interior / wrap-around rows, wrong public inputs) => no accepted proof, at standard strength every tampered proof rejected",
     "level_note": "Found and repaired in /repo with this machinery: F-C09-2 (forged proofs accepted: missing quotient commitment allowed), F-C09-1 (ctl_zs_first None/Some([]) malleability), F-C09-3 (Fixed schedule longer than the degree: honest proof rejected). The prover is not modelled (implementation oracle only).",
     "assumptions": ["FRI proximity soundness", "random oracle", "collision resistance"],
     "rule": "AIRs: fibonacci / permutation / unconstrained + generated (1..8 columns, degree 0..3, with/without public inputs, first/last/transition/unconditional constraints) x trace lengths 2^1..2^8 x StarkConfig (rate 1..3, cap height 0..4, grinding, 2..6 queries, Fixed / ConstantArityBits / MinSize, padded transcripts) + one standard-strength instance; corruptions: 5 row classes x columns, wrong public inputs, row exchange; tampering: every class of JSON leaf, 3 surgeries per array class, option toggles, public inputs, other transcript mode; forgery per instance; distinct = distinct request lines",
